@@ -297,7 +297,42 @@ impl FunctionSignature {
         // FIXME: We check for intersecting stack parameter register, but not for intersecting nested parameters.
         // We should add a check for these to generate log messages (but probably without trying to merge such parameters)
         self.merge_intersecting_stack_parameters(&project.stack_pointer_register);
+        self.remove_nested_parameters_without_parent(project);
         self.check_for_unaligned_stack_params(&project.stack_pointer_register)
+    }
+
+    /// Remove nested parameters whose parent location is not (or no longer) contained in the parameter list.
+    ///
+    /// The removal of the return address and the merging of intersecting stack parameters
+    /// can remove the parent location of a nested parameter.
+    /// Analyses that build the start state of a function from its signature (e.g. the Pointer Inference)
+    /// assume that the memory object of the parent location exists for every nested parameter.
+    fn remove_nested_parameters_without_parent(&mut self, project: &Project) {
+        let pointer_size = project.get_pointer_bytesize();
+        loop {
+            let orphaned_params: Vec<AbstractLocation> = self
+                .parameters
+                .keys()
+                .filter(|param| match param.get_parent_location(pointer_size) {
+                    // Root locations have no parent.
+                    Err(_) => false,
+                    // The stack register itself is not a parameter, but the parent of all stack parameters.
+                    Ok((AbstractLocation::Register(var), _))
+                        if var == project.stack_pointer_register =>
+                    {
+                        false
+                    }
+                    Ok((parent, _)) => !self.parameters.contains_key(&parent),
+                })
+                .cloned()
+                .collect();
+            if orphaned_params.is_empty() {
+                break;
+            }
+            for param in orphaned_params {
+                self.parameters.remove(&param);
+            }
+        }
     }
 
     /// Return a log message for every unaligned stack parameter
